@@ -59,8 +59,9 @@ Owner(clause, branches) ==
             ELSE IF "Start" \in branches THEN {"C04", "C01"} ELSE {"C01"}
       [] clause = "count" -> {"C01"}
       [] clause = "stm"   -> {"C02", "C03"}
-      [] clause = "tm"    -> {"C03"}
-      [] clause = "ic"    -> {"C03"}
+      \* "the next engage() then starts ... with initial_call True and tm restarting at zero" is C04's too
+      [] clause = "tm"    -> IF "Start" \in branches THEN {"C03", "C04"} ELSE {"C03"}
+      [] clause = "ic"    -> IF "Start" \in branches THEN {"C03", "C04"} ELSE {"C03"}
       [] clause = "done"  -> {"C04"}
       [] clause = "exec"  -> {"C04"}
       [] clause = "cur"   -> {"C04"}
